@@ -20,8 +20,9 @@ RULE = (
     "accepted regime; regimes min/max viscosity under every letter; M* = 0 under every letter "
     "with no grain below the sliding threshold) and the long chains / compositions; the newest "
     "snapshot must equal the previous one while F follows the C06 reference; (c) rejected "
-    "updates (regime ordinals 2,3,5,-1,8,9; mismatched phase/fabric; phase absent from the "
-    "assemblage is NOT covered by the statement) must raise and leave the stored history "
+    "updates (regime ordinals 2,3,5,-1,8,9; mismatched phase/fabric; invalid phase ordinals 2,7,-1,99 "
+    "with an ordinary parameter set in every accepted regime; a VALID phase absent from the "
+    "assemblage is not covered by the statement) must raise and leave the stored history "
     "untouched (length and content hashes). Non-trivial: null case with L != 0, or a rejected "
     "update on a mineral that already holds >= 2 snapshots; distinct = (case key, sequence)."
 )
@@ -72,6 +73,13 @@ def gen_cases(tier, seed):
         for fl in ("gen", "zero", "rigid", "ps_xy"):
             for tex in ("random", "aligned"):
                 keys.append(dict(part="reject", phase=ph, fabric=fb, regime=4, pre=0, how="pair", flow=fl, tex=tex))
+    # invalid phase ordinals on a mineral driven with an ordinary parameter set (the ordinal is
+    # then also absent from the assemblage; seed C07e), in every accepted regime
+    for ph in (2, 7, -1, 99):
+        for fb in (0, 5):
+            for rg in (4, 6, 1, 0, 7):
+                for fl in ("gen", "zero"):
+                    keys.append(dict(part="reject", phase=ph, fabric=fb, regime=rg, pre=0, how="pair", flow=fl, tex="random", asm="default"))
     for fab in alph.FABRICS:
         for pre in (0, 2):
             keys.append(dict(part="reject", fab=fab, regime=4, pre=pre, how="get_regime"))
@@ -323,8 +331,11 @@ def run_reject(key):
     if key["how"] == "pair":
         ph, fb = key["phase"], key["fabric"]
         n = 4
-        m = pd.Mineral(phase=ph, fabric=fb, regime=4, n_grains=n, fractions_init=alph.volumes("uniform", n), orientations_init=alph.texture(key.get("tex", "random"), n))
-        prm = H.params_for(0, "default", assemblage=[ph], fractions=(1.0,))
+        m = pd.Mineral(phase=ph, fabric=fb, regime=key["regime"], n_grains=n, fractions_init=alph.volumes("uniform", n), orientations_init=alph.texture(key.get("tex", "random"), n))
+        if key.get("asm") == "default":
+            prm = H.params_for(0, "default")  # phase_assemblage = (olivine,)
+        else:
+            prm = H.params_for(0, "default", assemblage=[ph], fractions=(1.0,))
         good_regime = 4
     else:
         ph, fb = alph.FABRICS[key["fab"]]
